@@ -203,6 +203,7 @@ func c13(c *Ctx) {
 	c13Digest(c, ja3)
 	c13Unmarshal(c)
 	c13Info(c)
+	c13ParsedHelloImmutable(c)
 	c13HTTPS(c)
 }
 
